@@ -2,3 +2,7 @@ pub mod c16;
 pub mod c01;
 pub mod c10;
 pub mod c11;
+pub mod c15;
+pub mod c14;
+pub mod c17;
+pub mod c02;
